@@ -308,7 +308,10 @@ pub fn case(tape: &[u32]) -> CaseOutcome {
                 // one statement in conflict with itself on two matches: both matches are named
                 if cross {
                     let m = |c: &StmtCtx| (c.node_kind.clone(), c.source_location.row, c.source_location.column);
-                    if m(&ctxs[0]) == m(&ctxs[1]) {
+                    // nested nodes of one kind can start at the same position (`a()()`): only a
+                    // position that a single match root has counts as "the same match twice"
+                    let same_position_roots = roots.iter().filter(|r| (r.0.clone(), r.1, r.2) == m(&ctxs[0])).count();
+                    if m(&ctxs[0]) == m(&ctxs[1]) && same_position_roots < 2 {
                         return CaseOutcome::Fail(Failure::new("C20:lazy:conflict-names-one-match-twice", format!("the statement conflicts with itself on two different matches, both contexts cite the same matched node: {}", rendered), d(json!({}))));
                     }
                     labels.push("lazy:cross-match-conflict-names-both-matches".into());
